@@ -39,6 +39,10 @@ P = {
          "is shorter than two pages / its high-water mark, falls back to the other meta when exactly one is invalid, prefers the newer when both are valid, and finds the page size through the second "
          "meta. Tie: real Open vs extracted open_model + decoder on exhaustive single-byte sweeps, partial overwrites, truncations and junk files.",
          "Arbitrary multi-byte mixtures are covered by the sweep only (a 64-bit hash has collisions). That page 0's tail is zero is an assumption of the page-size theorem (true of every meta page bbolt writes).", "DESIGN.md §8 C11"),
+ "C13": ("Spec.v has no option parameter (every API result is a function of the history only); Pager.v: the free list rebuilt by scanning equals free+pending in every reachable at-rest state, reopening in either mode "
+         "re-establishes the invariant; Freelist.v: the persisted list is backend independent. Tie: every history is run under K option schedules re-drawn at every open (backend, freelist-sync, grow-sync, map size, "
+         "StrictMode, page size, read-only opens with/without preload) and compared with the one Spec run; accounting on every image; the code's free list after every open vs the decoder's scan.",
+         "Mlock is not exercised (needs RLIMIT_MEMLOCK); physical statistics legitimately differ between schedules and are compared with the page-level model instead.", "DESIGN.md §8 C13"),
  "C12": ("Round-trip theorems between the published layout as a writer specification (LayoutEnc.v) and the independent reader (Layout.v) for integers and checksummed meta pages at any file position; "
          "every file the implementation writes in generated histories is decoded by the extracted reader and compared with the API's report.",
          "Leaf/branch/freelist page round trips are exercised by the correspondence only (theorems so far: integers, meta).", "DESIGN.md §8 C12"),
